@@ -172,6 +172,15 @@ func (p *PDF) XrefStream(num int, entries map[int]XEntry, trailer string, prev i
 	nums := sortedNums(entries)
 	var data []byte
 	var idx []string
+	wtext := w // /W as written (may be hostile); the data is encoded with sane widths
+	for i := range w {
+		if w[i] < 0 {
+			w[i] = 0
+		}
+		if w[i] > 8 {
+			w[i] = 8
+		}
+	}
 	for _, r := range runs(nums) {
 		idx = append(idx, fmt.Sprintf("%d %d", r[0], r[1]))
 		for i := 0; i < r[1]; i++ {
@@ -183,7 +192,7 @@ func (p *PDF) XrefStream(num int, entries map[int]XEntry, trailer string, prev i
 			data = append(data, beBytes(int64(e.F2), w[2])...)
 		}
 	}
-	dict := fmt.Sprintf("/Type /XRef /Size %d /W [%d %d %d] /Index [%s] %s", size, w[0], w[1], w[2], strings.Join(idx, " "), trailer)
+	dict := fmt.Sprintf("/Type /XRef /Size %d /W [%d %d %d] /Index [%s] %s", size, wtext[0], wtext[1], wtext[2], strings.Join(idx, " "), trailer)
 	if prev >= 0 {
 		dict += fmt.Sprintf(" /Prev %d", prev)
 	}
